@@ -48,6 +48,9 @@ type Stream struct {
 	Corpus func() []Case
 }
 
+// NoModel disables the model comparison (monitors only).
+var NoModel bool
+
 // Streams is the registry.
 var Streams = map[string]*Stream{}
 
@@ -162,13 +165,19 @@ func Exec(s *Stream, seed uint64, n int, shards int) *Result {
 
 	// corpus first (single shard)
 	if s.Corpus != nil {
-		p, err := model.Start()
-		if err != nil {
-			fmt.Fprintln(os.Stderr, "cannot start model:", err)
-			os.Exit(3)
+		var p *model.Proc
+		if !NoModel {
+			var err error
+			p, err = model.Start()
+			if err != nil {
+				fmt.Fprintln(os.Stderr, "cannot start model:", err)
+				os.Exit(3)
+			}
 		}
 		runCases(p, s.Corpus())
-		p.Close()
+		if p != nil {
+			p.Close()
+		}
 	}
 
 	var wg sync.WaitGroup
@@ -177,12 +186,16 @@ func Exec(s *Stream, seed uint64, n int, shards int) *Result {
 		wg.Add(1)
 		go func(sh int) {
 			defer wg.Done()
-			p, err := model.Start()
-			if err != nil {
-				fmt.Fprintln(os.Stderr, "cannot start model:", err)
-				os.Exit(3)
+			var p *model.Proc
+			if !NoModel {
+				var err error
+				p, err = model.Start()
+				if err != nil {
+					fmt.Fprintln(os.Stderr, "cannot start model:", err)
+					os.Exit(3)
+				}
+				defer p.Close()
 			}
-			defer p.Close()
 			for i := 0; i < per; i++ {
 				r := gen.New(seed, uint64(sh), uint64(i))
 				runCases(p, s.Gen(r, i))
